@@ -50,6 +50,9 @@ impl WakerQueue {
             .expect("Failed to lock WakerQueue")
             .push_back(interest);
 
+        #[cfg(actix_net_verif)]
+        crate::verif::point(crate::verif::Point::AfterPush);
+
         waker
             .wake()
             .unwrap_or_else(|e| panic!("can not wake up Accept Poll: {}", e));
@@ -81,4 +84,23 @@ pub(crate) enum WakerInterest {
     /// `Worker` is an interest that is triggered after a worker faults. This is determined by
     /// trying to send work to it. `Accept` would be waked up and add the new `WorkerHandleAccept`.
     Worker(WorkerHandleAccept),
+}
+
+#[cfg(actix_net_verif)]
+pub(crate) mod verif_queue {
+    use super::*;
+
+    pub(crate) fn snapshot(queue: &WakerQueue) -> Vec<String> {
+        queue
+            .guard()
+            .iter()
+            .map(|interest| match interest {
+                WakerInterest::WorkerAvailable(idx) => format!("WorkerAvailable({idx})"),
+                WakerInterest::Pause => "Pause".to_owned(),
+                WakerInterest::Resume => "Resume".to_owned(),
+                WakerInterest::Stop => "Stop".to_owned(),
+                WakerInterest::Worker(handle) => format!("Worker({})", handle.idx()),
+            })
+            .collect()
+    }
 }
